@@ -230,7 +230,12 @@ def typing_sig(party, prog, want, got, pre_ty):
 def typing_gen(ctx):
     cfg = "MongoTyping_quick.cfg" if ctx.tier == "quick" else "MongoTyping_thorough.cfg"
     res = ctx.tlc("mongofilter", "MongoTyping", cfg, workers=8, timeout=1500, label="typing judgement over the supported statements")
-    return res.msgs.get("prog", [])
+    progs = res.msgs.get("prog", [])
+    # marks x moves, one statement deeper (both tiers)
+    res = ctx.tlc("mongofilter", "MongoTyping", "MongoTyping_marks.cfg", workers=8, timeout=1500, label="typing judgement: marks and moves to depth 4")
+    seen = {canon(p["prog"]) for p in progs}
+    progs += [p for p in res.msgs.get("prog", []) if canon(p["prog"]) not in seen]
+    return progs
 
 
 def typing_half(ctx, progs):
